@@ -57,9 +57,14 @@ def gemini_arg(draw, names=None, allow_instance=True):
 @st.composite
 def groups_arg(draw, d):
     """None, a full partition or a partial list of disjoint groups of feature indices."""
-    mode = draw(st.sampled_from(["none", "none", "partition", "partial"]))
+    mode = draw(st.sampled_from(["none", "none", "partition", "partial", "interleaved"]))
     if mode == "none" or d < 1:
         return None
+    if mode == "interleaved":
+        if d < 2:
+            return None
+        k = draw(st.integers(2, min(3, d)))
+        return [list(range(j, d, k)) for j in range(k)][:draw(st.integers(1, k))]
     perm = draw(st.permutations(range(d)))
     if mode == "partial":
         perm = perm[:draw(st.integers(1, d))]
@@ -101,18 +106,20 @@ def est_spec(draw, classes=None, n_max=12, d_max=4, k_max=3, hidden_max=4, iter_
         if s["aff"]["name"] == "haversine":
             s["d"] = s["x"]["d"] = 2
     if cls in ("RIM", "KernelRIM"):
-        s["reg"] = draw(st.sampled_from([0.0, 0.1, 1.0]))
+        s["reg"] = draw(st.sampled_from([0.0, 0.1, 1.0, 1e-6]))
     if cls == "KernelRIM":
         s["base_kernel"] = draw(gens.kernel_spec(forms=("named", "callable2")))
     if cls in MLPS:
         s["n_hidden_dim"] = draw(st.integers(1, hidden_max))
     if cls in SPARSE:
-        s["alpha"] = draw(st.sampled_from([0.0, 0.01, 0.1, 1.0, 10.0]))
+        s["alpha"] = draw(st.sampled_from([0.0, 0.01, 0.1, 1.0, 10.0, 1e-6]))
         s["groups"] = draw(groups_arg(s["d"]))
+        if s["groups"] is not None:
+            s["gcont"] = draw(st.one_of(st.none(), gens.seeds))
         if cls != "SparseLinearMI":
             s["dynamic"] = draw(st.booleans())
     if cls in ("SparseMLPModel", "SparseMLPMMD"):
-        s["M"] = draw(st.sampled_from([0.0, 0.1, 1.0, 10.0]))
+        s["M"] = draw(st.sampled_from([0.0, 0.1, 1.0, 10.0, 1e-6, 100.0]))
     if cls == "Douglas":
         s["n_cuts"] = draw(st.integers(1, cuts_max))
         s["temperature"] = draw(st.sampled_from([0.05, 0.1, 1.0, 10.0]))
@@ -190,7 +197,7 @@ def build(s, X=None):
     kw = {k: s[k] for k in ("n_clusters", "max_iter", "learning_rate", "solver", "batch_size", "random_state", "reg", "verbose",
                             "n_hidden_dim", "alpha", "groups", "dynamic", "M", "n_cuts", "temperature", "ovo") if k in s}
     if s.get("groups") is not None:
-        kw["groups"] = [list(g) for g in s["groups"]]
+        kw["groups"] = gens.group_containers([list(g) for g in s["groups"]], s.get("gcont"))
     if X is None:
         X = build_data(s)
     y = None
